@@ -135,6 +135,13 @@ impl Future for &CommandAcknowledgementHandle {
     }
 }
 
+/// Read-only accessors used by the model-checking harness in /verif (never compiled without `--cfg cached_verif`).
+#[cfg(cached_verif)]
+impl CommandAcknowledgementHandle {
+    /// The `done` flag as a poll would see it right now. Never blocks, not a scheduling point.
+    pub(crate) fn verif_is_done(&self) -> bool { crate::verif_rt::peek::atomic_bool(&self.done) }
+}
+
 #[cfg(test)]
 mod tests {
     use crate::cache::command::acknowledgement::CommandAcknowledgement;
